@@ -3,6 +3,8 @@ mod benchmarks;
 mod mempool_state;
 mod recent_execution_results;
 mod transactions_container;
+#[cfg(feature = "verif")]
+mod verif_hooks;
 
 use std::{
     collections::{
